@@ -8,6 +8,7 @@ import EG.Proofs.Search
 -/
 namespace EG
 namespace T
+open SearchAux
 
 variable (nb : Nat → List Nat) (inU : Nat → Bool) (p : Nat → Bool)
 
